@@ -1,5 +1,6 @@
 import CppUModel.Model.SepProcTypes
 import CppUModel.Gen.SeparateProcessConstants
+import CppUModel.Gen.SeparateProcessLoop
 /-!
 Model of separate-process mode, written from the C++ line by line:
 
@@ -143,6 +144,69 @@ def runSeparateOn (pf : Platform) (t : TestScript) : LoopResult :=
   | .withFork => runSeparate t
   | .withoutFork => { failures := [noForkFailure], consumed := 0, conts := 0, ended := .noFork }
 
+
+/-! ## the function as regenerated from the AST (`Gen/SeparateProcessLoop.lean`)
+
+`waitBodyGen` is one pass through the body of the `do … while`; the loop itself is the obvious
+recursion over what `waitpid` is going to answer.  `Props/C11.lean` proves that this is the hand
+model above (`genRunSeparate_eq_model`), so that every theorem about `parentLoop` / `runSeparate`
+is a theorem about what the source says at check time. -/
+
+/-- how the regenerated function came to stop -/
+inductive GenEnd
+  | returned        -- a `return` statement
+  | condFalse       -- the `while` condition became false
+  | starved         -- the known outcomes ran out
+deriving Repr, DecidableEq, Inhabited
+
+structure GenResult where
+  failures : List String        -- texts of the failures added, in order
+  consumed : Nat
+  conts    : Nat
+  ended    : GenEnd
+deriving Repr, DecidableEq, Inhabited
+
+def GenResult.prepend (fs : List String) (c : Nat) (r : GenResult) : GenResult :=
+  { failures := fs ++ r.failures, consumed := r.consumed + 1, conts := c + r.conts, ended := r.ended }
+
+/-- what one pass of the body means for the loop -/
+def genStep (b : BodyOut) (next : BitVec 64 → BitVec 32 → GenResult) : GenResult :=
+  match b with
+  | .ret fs c => { failures := fs, consumed := 1, conts := c, ended := .returned }
+  | .fall fs c r s again =>
+    if again then (next r s).prepend fs c
+    else { failures := fs, consumed := 1, conts := c, ended := .condFalse }
+
+/-- `do { BODY } while (COND);` over the answers `waitpid` is going to give -/
+def genLoop : List WaitOutcome → BitVec 64 → BitVec 32 → GenResult
+  | [], _, _ => { failures := [], consumed := 0, conts := 0, ended := .starved }
+  | o :: rest, retries, status => genStep (Gen.SepProcLoop.waitBodyGen retries status o) (genLoop rest)
+
+/-- the code in front of the loop when fork fails -/
+def genForkFailed : GenResult :=
+  match Gen.SepProcLoop.forkFailedGen with
+  | .ret fs c => { failures := fs, consumed := 0, conts := c, ended := .returned }
+  | .fall fs c _ _ _ => { failures := fs, consumed := 0, conts := c, ended := .condFalse }
+
+/-- `GccPlatformSpecificRunTestInASeperateProcess` in the parent, regenerated -/
+def genRunSeparate (t : TestScript) : GenResult :=
+  if t.forkOk then genLoop t.outs Gen.SepProcLoop.loopInitRetries Gen.SepProcLoop.loopInitStatus
+  else genForkFailed
+
+/-- the hand model's result seen through what the regenerated function can tell -/
+def LoopEnd.gen : LoopEnd → GenEnd
+  | .childGone => .condFalse
+  | .starved => .starved
+  | _ => .returned
+
+def LoopResult.gen (r : LoopResult) : GenResult :=
+  { failures := r.failures.map (·.text), consumed := r.consumed, conts := r.conts, ended := r.ended.gen }
+
+/-- the wait status of a child that runs to its `_exit`, with the regenerated `_exit` argument
+    (`size_t` counters as 64-bit words) -/
+def genChildStatus (initial final : Nat) : BitVec 32 :=
+  (Gen.SepProcLoop.childExitGen (BitVec.ofNat 64 initial) (BitVec.ofNat 64 final)) <<< 8
+
 /-! ## the child's side -/
 
 /-- `_exit(initialFailureCount < result->getFailureCount())` -/
@@ -249,6 +313,63 @@ def runRegistryFrom (p : SepFlagPlacement) (idx : Nat) (groupStart : Bool) : Lis
 def runRegistry (ts : List RegTest) : RunState :=
   runRegistryFrom sepFlagPlacement 0 true ts RunState.init
 
+/-! ### test kinds: `IGNORE_TEST` entries and run-ignored (`-ri`)
+
+`IgnoredUtestShell::runOneTest`: without run-ignored the test is only counted as ignored; with it,
+the branch regenerated as `ignoredRunCall` decides whether the test goes through
+`UtestShell::runOneTest` (and so through the separate-process decision) or straight into the
+current process. -/
+
+inductive TestKind
+  | normal                        -- `TEST`: a `UtestShell`
+  | ignored                       -- `IGNORE_TEST`: an `IgnoredUtestShell`
+deriving Repr, DecidableEq, Inhabited
+
+structure KTest where
+  kind   : TestKind
+  group  : Nat
+  script : TestScript
+deriving Repr, DecidableEq, Inhabited
+
+inductive HowRun
+  | forked                        -- through `PlatformSpecificRunTestInASeperateProcess`
+  | inRunner                      -- `runOneTestInCurrentProcess` in the runner itself
+  | notRun                        -- `result.countIgnored()`
+deriving Repr, DecidableEq, Inhabited
+
+/-- `test->runOneTest(plugin, result)` by dynamic type; `flag` = `isRunInSeperateProcess()` -/
+def howRun (call : IgnoredRunCall) (runIgnored flag : Bool) : TestKind → HowRun
+  | .normal => if flag then .forked else .inRunner
+  | .ignored =>
+    if runIgnored then
+      (match call with
+       | .viaRunOneTest => if flag then .forked else .inRunner
+       | .inCurrentProcess => .inRunner)
+    else .notRun
+
+/-- an ignored test that is not run: started and ended by the registry, counted as ignored only -/
+def notRunAt (idx : Nat) (st : RunState) : RunState := { st with started := st.started ++ [idx] }
+
+/-- `TestRegistry::runAllTests` after `setRunTestsInSeperateProcess()` (and `setRunIgnored()` when
+    `ri`) over entries of both kinds -/
+def runKindsFrom (call : IgnoredRunCall) (p : SepFlagPlacement) (ri : Bool) (idx : Nat) (groupStart : Bool) :
+    List KTest → RunState → RunState
+  | [], st => st
+  | t :: ts, st =>
+    match howRun call ri (sepFlag p groupStart) t.kind with
+    | .forked =>
+      if (runResultAt idx (runSeparate t.script) st).hung then runResultAt idx (runSeparate t.script) st
+      else runKindsFrom call p ri (idx + 1) (endOfGroup t.group (ts.map (fun k => ⟨k.group, k.script⟩))) ts
+             (runResultAt idx (runSeparate t.script) st)
+    | .inRunner =>
+      runKindsFrom call p ri (idx + 1) (endOfGroup t.group (ts.map (fun k => ⟨k.group, k.script⟩))) ts (runInRunnerAt idx st)
+    | .notRun =>
+      runKindsFrom call p ri (idx + 1) (endOfGroup t.group (ts.map (fun k => ⟨k.group, k.script⟩))) ts (notRunAt idx st)
+
+/-- the registry as the source has it (flag placement and the ignored shell's call regenerated) -/
+def runKinds (ri : Bool) (ts : List KTest) : RunState :=
+  runKindsFrom ignoredRunCall sepFlagPlacement ri 0 true ts RunState.init
+
 /-! ### the command-line path: `-p` reaches the registry through `initializeTestRun` -/
 
 /-- which switches were given on the command line (`CommandLineArguments` getters) -/
@@ -286,6 +407,20 @@ def separateModeOn (a : CliArgs) : Bool := (execInit a false initStatements).con
 def runInRunnerAll (idx : Nat) : List RegTest → RunState → RunState
   | [], st => st
   | _ :: ts, st => runInRunnerAll (idx + 1) ts (runInRunnerAt idx st)
+
+/-- `registry_->setRunIgnored()` is called for these arguments -/
+def runIgnoredOn (a : CliArgs) : Bool := (execInit a false initStatements).contains .runIgnored
+
+/-- without separate-process mode nothing is forked (ignored entries run only with run-ignored) -/
+def runKindsInRunner (ri : Bool) (idx : Nat) : List KTest → RunState → RunState
+  | [], st => st
+  | t :: ts, st =>
+    if t.kind == .ignored && !ri then runKindsInRunner ri (idx + 1) ts (notRunAt idx st)
+    else runKindsInRunner ri (idx + 1) ts (runInRunnerAt idx st)
+
+/-- the command-line run over entries of both kinds: `-p` and `-ri` as `initializeTestRun` forwards them -/
+def runCommandLineKinds (a : CliArgs) (ts : List KTest) : RunState :=
+  if separateModeOn a then runKinds (runIgnoredOn a) ts else runKindsInRunner (runIgnoredOn a) 0 ts RunState.init
 
 /-- `CommandLineTestRunner::runAllTestsMain` for one repetition, as far as `-p` is concerned -/
 def runCommandLine (a : CliArgs) (ts : List RegTest) : RunState :=
